@@ -24,8 +24,10 @@ def simulate(cfg, num, depth, wd, seed):
 
 
 def run_stage(wd, tier, seed, stats, findings):
-    num, depth = (150, 200) if tier == "quick" else (3000, 300)
-    hs = simulate("KanalAtomicSim.cfg", num, depth, wd, seed)
+    num, depth = (150, 200) if tier == "quick" else (9000, 300)
+    hs = []
+    for cfg in ("KanalAtomicSim.cfg", "KanalAtomicSim_b.cfg", "KanalAtomicSim_c.cfg"):
+        hs += simulate(cfg, max(num // 3, 40), depth, wd, seed)
     if not hs:
         return
     path = os.path.join(wd, "l1sim.hist.ndjson")
